@@ -104,6 +104,13 @@ func c12Frames(c *eng.Ctx, r *eng.Report) {
 			}
 			s := eng.Site{Fn: fn, Instr: ci}
 			if !isStateDBCall(s, "RevertToSnapshot") {
+				// a vm helper that reverts to its snapshot argument whenever its error argument is non-nil, handed
+				// this frame's snapshot (the tail shared by the frame functions, extracted)
+				if h := ci.Call.StaticCallee(); h != nil {
+					if si, ei, ok := revertsWhenErr(h); ok && si < len(ci.Call.Args) && ei < len(ci.Call.Args) && ci.Call.Args[si] == ssa.Value(snapVal) {
+						return true
+					}
+				}
 				return false
 			}
 			args := ci.Call.Args
@@ -851,4 +858,59 @@ func c12FrameOwnsItsMemory(c *eng.Ctx, r *eng.Report) {
 	if n == 0 {
 		r.Fail(rule, "frame-memory:none", c.Pos(run.Pos()), "Run no longer stores callCtx.memory: the rule has lost its anchor")
 	}
+}
+
+// revertsWhenErr: h's entry block ends in `if errParam != nil`, and the true
+// successor calls RevertToSnapshot(snapParam). Returns the argument indexes
+// (in call order, receiver included) of the snapshot and the error.
+func revertsWhenErr(h *ssa.Function) (snapIdx, errIdx int, ok bool) {
+	if h.Blocks == nil || !strings.HasSuffix(eng.FuncPkgPath(h), "/src/vm") || len(h.Blocks[0].Instrs) == 0 {
+		return 0, 0, false
+	}
+	iff, isIf := h.Blocks[0].Instrs[len(h.Blocks[0].Instrs)-1].(*ssa.If)
+	if !isIf {
+		return 0, 0, false
+	}
+	m, isM := eng.DecodeCmp(iff.Cond)
+	if !isM || (m.Op != token.NEQ && m.Op != token.EQL) {
+		return 0, 0, false
+	}
+	errBranch := h.Blocks[0].Succs[0]
+	if m.Op == token.EQL {
+		errBranch = h.Blocks[0].Succs[1]
+	}
+	var ep *ssa.Parameter
+	if p, isP := m.X.(*ssa.Parameter); isP && eng.IsNilConst(m.Y) {
+		ep = p
+	} else if p, isP := m.Y.(*ssa.Parameter); isP && eng.IsNilConst(m.X) {
+		ep = p
+	}
+	if ep == nil {
+		return 0, 0, false
+	}
+	var sp *ssa.Parameter
+	for _, in := range errBranch.Instrs {
+		ci, isC := in.(*ssa.Call)
+		if !isC {
+			continue
+		}
+		s := eng.Site{Fn: h, Instr: ci}
+		if isStateDBCall(s, "RevertToSnapshot") {
+			if p, isP := ci.Call.Args[len(ci.Call.Args)-1].(*ssa.Parameter); isP {
+				sp = p
+			}
+		}
+	}
+	if sp == nil {
+		return 0, 0, false
+	}
+	for i, p := range h.Params {
+		if p == sp {
+			snapIdx = i
+		}
+		if p == ep {
+			errIdx = i
+		}
+	}
+	return snapIdx, errIdx, true
 }
